@@ -610,7 +610,7 @@ impl Sim for ServicesSim {
                 id: "C19",
                 level: "exploration",
                 modes: vec!["nofault", "fault"],
-                quick_runs: 10_000,
+                quick_runs: 20_000,
                 thorough_runs: 40_000,
                 rule: "One run = one seeded sequence of antctl invocations (add with random option vectors and counts 1..3, start, stop, remove, upgrade, status, by name or for all services), each executed as a fresh process: NodeRegistry::load from a real file, the real refresh_node_registry / add_node / ServiceManager<NodeService>::{start,stop,remove,upgrade}, save. All OS and RPC effects go to a simulated OS behind the repo's own ServiceControl / RpcActions traits. Mode fault adds: call #n (and sometimes #m) of an operation's ServiceControl/RpcActions calls fails with an error the real implementation returns, a launch that silently produces no process, external process death, manual removal of a service definition, and registry-file corruption between invocations; in the thorough tier (and 1/8 of quick fault runs) the failing call index of one operation per run is enumerated 0,1,2,... until it exceeds the calls made (inner evaluations). After every invocation the registry file is compared with the simulated OS. Non-trivial = >=3 operations and >=1 fault fired; distinct = distinct fingerprint of the executed operation kinds, results and fired faults.",
                 assumptions: vec![
